@@ -97,6 +97,10 @@ def _data_variants(a):
         "float32": lambda: a.astype(np.float32),
         "series": lambda: pd.Series(a),
         "masked": lambda: np.ma.array(np.where(nan, 999.0, a), mask=nan),
+        # "a NumPy array of any real dtype": the same float64 numbers in the other byte order (big-endian files),
+        # in a non-contiguous (strided) buffer, and as float16-free long double is left out (platform dependent)
+        "float64_swapped": lambda: a.astype(a.dtype.newbyteorder()),
+        "float64_strided": lambda: np.repeat(a, 2)[::2],
     }
     if not nan.any() and np.all(a == np.round(a)):
         out["int64"] = lambda: a.astype(np.int64)
@@ -138,6 +142,10 @@ def _time_variants(t):
         out["dt64_s"] = lambda: t.astype("datetime64[s]")
         out["epoch_int"] = lambda: [int(s_) for s_ in secs]
         out["epoch_int_array"] = lambda: secs.astype(np.int64)
+        if len(secs) and secs.min() >= 0 and secs.max() < 2**31:
+            # epoch seconds in the integer widths files use (int32 until 2038, uint32)
+            out["epoch_int32_array"] = lambda: secs.astype(np.int32)
+            out["epoch_uint32_array"] = lambda: secs.astype(np.uint32)
     # datetime64 arrays of coarser units ("datetime64 of any unit"): only for axes the unit can hold exactly
     for unit, span_ns in (("m", 60 * 10**9), ("h", 3600 * 10**9), ("D", 86400 * 10**9)):
         if bool(np.all(ns % span_ns == 0)):
